@@ -1291,3 +1291,124 @@ def item_outcome(builder, atoms: dict[str, Optional[bool]], env: Optional[dict] 
         return 'next'
     run(list(builder))
     return [(m, k, v) for (m, k), v in stores.items()]
+
+
+# --------------------------------------------------------------------------- folding a small pure function over given inputs
+
+def fold_function(fi: FuncInfo, inputs: dict[str, object], max_steps: int = 200) -> tuple[str, object]:
+    """What a small decision function does for given inputs, read off its source: ('return', value), ('raise', exception name)
+    or ('fall', None).  `inputs` maps the text of an expression (`'output_path.suffix'`, a parameter name) to the Python value it
+    is to stand for.  Understood: assignments to names, if / elif / else, return, raise, comparisons (== != in not in is is not < <= > >=),
+    and / or / not, conditional expressions, literal displays (tuple, list, set, dict), subscripts and .get() of those,
+    str.lower / upper / strip / startswith / endswith, len().  Anything else raises Undecided naming it: no guessing."""
+    env: dict[str, object] = {}
+    steps = [0]
+
+    def ev(e: ast.AST):
+        steps[0] += 1
+        if steps[0] > max_steps:
+            raise Undecided('too long')
+        text = norm_text(e)
+        if text in inputs:
+            return inputs[text]
+        if isinstance(e, ast.Constant):
+            return e.value
+        if isinstance(e, ast.Name):
+            if e.id in env:
+                return env[e.id]
+            raise Undecided(e.id)
+        if isinstance(e, (ast.Tuple, ast.List)):
+            vals = [ev(x) for x in e.elts]
+            return tuple(vals) if isinstance(e, ast.Tuple) else vals
+        if isinstance(e, ast.Set):
+            return frozenset(ev(x) for x in e.elts)
+        if isinstance(e, ast.Dict):
+            if any(k is None for k in e.keys):
+                raise Undecided(text[:40])
+            return {ev(k): ev(v) for k, v in zip(e.keys, e.values)}
+        if isinstance(e, ast.BoolOp):
+            v = None
+            for x in e.values:
+                v = ev(x)
+                if isinstance(e.op, ast.And) and not v:
+                    return v
+                if isinstance(e.op, ast.Or) and v:
+                    return v
+            return v
+        if isinstance(e, ast.UnaryOp) and isinstance(e.op, ast.Not):
+            return not ev(e.operand)
+        if isinstance(e, ast.IfExp):
+            return ev(e.body) if ev(e.test) else ev(e.orelse)
+        if isinstance(e, ast.Compare):
+            left = ev(e.left)
+            for op, right_ in zip(e.ops, e.comparators):
+                right = ev(right_)
+                try:
+                    r = {ast.Eq: lambda: left == right, ast.NotEq: lambda: left != right, ast.In: lambda: left in right, ast.NotIn: lambda: left not in right,
+                         ast.Is: lambda: left is right, ast.IsNot: lambda: left is not right, ast.Lt: lambda: left < right, ast.LtE: lambda: left <= right,
+                         ast.Gt: lambda: left > right, ast.GtE: lambda: left >= right}[type(op)]()
+                except TypeError:
+                    raise Undecided(text[:40])
+                if not r:
+                    return False
+                left = right
+            return True
+        if isinstance(e, ast.Subscript):
+            base, key = ev(e.value), ev(e.slice)
+            try:
+                return base[key]
+            except (KeyError, IndexError, TypeError):
+                return _Raised('KeyError' if isinstance(base, dict) else 'IndexError')
+        if isinstance(e, ast.Call) and not e.keywords:
+            if isinstance(e.func, ast.Name) and e.func.id == 'len' and len(e.args) == 1:
+                return len(ev(e.args[0]))
+            if isinstance(e.func, ast.Name) and e.func.id in ('frozenset', 'set', 'tuple', 'list', 'dict') and len(e.args) == 1:
+                return {'frozenset': frozenset, 'set': frozenset, 'tuple': tuple, 'list': list, 'dict': dict}[e.func.id](ev(e.args[0]))
+            if isinstance(e.func, ast.Attribute):
+                recv = ev(e.func.value)
+                args = [ev(a) for a in e.args]
+                if isinstance(recv, dict) and e.func.attr == 'get' and 1 <= len(args) <= 2:
+                    return recv.get(*args)
+                if isinstance(recv, str) and e.func.attr in ('lower', 'upper', 'strip', 'casefold', 'startswith', 'endswith', 'lstrip', 'rstrip') and len(args) <= 1:
+                    return getattr(recv, e.func.attr)(*args)
+        raise Undecided(text[:60])
+
+    class _Raised:
+        def __init__(self, name):
+            self.name = name
+
+    class _Exit(Exception):
+        def __init__(self, kind, value):
+            self.kind, self.value = kind, value
+
+    def value(e):
+        v = ev(e)
+        if isinstance(v, _Raised):
+            raise _Exit('raise', v.name)
+        return v
+
+    def run(stmts):
+        for st in stmts:
+            if isinstance(st, ast.Expr) and isinstance(st.value, ast.Constant):
+                continue
+            if isinstance(st, ast.AnnAssign) and st.value is not None and isinstance(st.target, ast.Name):
+                env[st.target.id] = value(st.value)
+            elif isinstance(st, ast.Assign) and len(st.targets) == 1 and isinstance(st.targets[0], ast.Name):
+                env[st.targets[0].id] = value(st.value)
+            elif isinstance(st, ast.If):
+                run(st.body if value(st.test) else st.orelse)
+            elif isinstance(st, ast.Return):
+                raise _Exit('return', value(st.value) if st.value is not None else None)
+            elif isinstance(st, ast.Raise):
+                exc = st.exc.func if isinstance(st.exc, ast.Call) else st.exc
+                raise _Exit('raise', (dotted(exc) or '?').rsplit('.', 1)[-1] if exc is not None else '?')
+            elif isinstance(st, ast.Pass):
+                continue
+            else:
+                raise Undecided(norm_text(st)[:60])
+    from ..inline import _body_wo_doc
+    try:
+        run(_body_wo_doc(fi.node))
+    except _Exit as x:
+        return x.kind, x.value
+    return 'fall', None
